@@ -266,6 +266,16 @@ func (f *Flooder) HandleRouteAdvertise(
 		}
 	}
 
+	// Loop detection on the path. The seen-by list does not cover every case:
+	// a peer's full-table replay starts a fresh seen-by list, so our own
+	// announcement, or one that already passed through us, can come back.
+	// The routing tables refuse to store such routes, and they must not be
+	// forwarded either - downstream agents would otherwise store a path that
+	// visits this agent twice.
+	if originAgent == f.localID || containsAgent(path, f.localID) {
+		return false
+	}
+
 	// Convert protocol routes to routing entries (CIDR, domain, forward, and agent)
 	cidrEntries := make([]routing.RouteEntry, 0, len(routes))
 	domainEntries := make([]routing.DomainRouteEntry, 0)
